@@ -1,13 +1,14 @@
 ------------------------- MODULE MC_OmkmRange_cases -------------------------
 (* (S->C) the finite case set replayed into the real _get_omkm_range: every  *)
 (* collection (sequence: order and duplicates matter) of                      *)
-(*   <= 2 identifiers over 5 heads x 6 numbers x 3 printed widths + 13 others *)
+(*   <= 2 identifiers over 6 heads x 8 numbers x 4 printed widths + 13 others *)
 (*   (letters, signs, blank, digits of other scripts as code points),         *)
 (*   3 identifiers over 3 heads x 4 numbers x 2 widths,                       *)
 (*   4-5 identifiers over {a_0001, a_0002, a_0003, b_0002}.                   *)
 (* Each case carries what TLC computed: `must` (every identifier is in the    *)
 (* form the function must accept, so the call may not raise) and `n` (the     *)
-(* number of distinct identifiers the output has to denote).                  *)
+(* number of distinct identifiers the output has to denote).  The quick tier   *)
+(* replays a rotating quarter of the set (by seed), the thorough tier all.     *)
 EXTENDS OmkmRangeText, TLC, Json, IOUtils
 DELIM == 95
 HNone == <<>>
@@ -15,8 +16,9 @@ HEmpty == <<95>>
 HA == <<97, 95>>
 HAB == <<97, 95, 98, 95>>
 HUU == <<95, 95>>
+HA1 == <<97, 49, 95>>                \* a1_ : ends in a digit, `a` is a prefix of it
 U(heads, nums, widths) == {hd \o Pad(n, w) : hd \in heads, n \in nums, w \in widths}
-U2 == U({HNone, HEmpty, HA, HAB, HUU}, {0, 1, 2, 9, 10, 99999}, {1, 4, 5})
+U2 == U({HNone, HEmpty, HA, HAB, HUU, HA1}, {0, 1, 2, 3, 9, 10, 100, 99999}, {1, 2, 4, 5})
       \cup {<<97, 95, 120>>, <<97, 95>>, <<97, 98, 99>>}          \* a_x  a_  abc
       \cup {<<97, 95, 43, 50>>, <<97, 95, 32, 50>>, <<97, 95, 45, 50>>,      \* a_+2  a_ 2  a_-2
             <<97, 95, 49, 101, 49>>,                                        \* a_1e1
